@@ -19,6 +19,14 @@ var contribSet = []int64{0, 1, 2, 3, 5, 10, 11, 20, 25, 100, 1000000, 1<<53 + 1,
 
 func genVec(rt *rapid.T) Vec {
 	n := rapid.IntRange(2, 10).Draw(rt, "n")
+	// "all numbers of players": now and then a crowd (player indexes beyond the
+	// width of a 16-, 32- or 64-bit set)
+	switch rapid.IntRange(0, 39).Draw(rt, "crowd") {
+	case 0, 1, 2:
+		n = rapid.IntRange(11, 24).Draw(rt, "nCrowd")
+	case 3:
+		n = rapid.IntRange(25, 70).Draw(rt, "nBigCrowd")
+	}
 	v := Vec{}
 	// a small pool of values per case makes equal contributions (merged pots,
 	// multi-layer pots) frequent
@@ -29,6 +37,13 @@ func genVec(rt *rapid.T) Vec {
 			vals[i] = int64(rapid.IntRange(0, 40).Draw(rt, "val"))
 		} else {
 			vals[i] = contribSet[rapid.IntRange(0, len(contribSet)-1).Draw(rt, "valIdx")]
+		}
+	}
+	if n > 10 {
+		for i := range vals {
+			if vals[i] > 1000000 { // the sum must stay inside an int64
+				vals[i] = 1000000 + int64(i)
+			}
 		}
 	}
 	nstr := rapid.IntRange(1, 3).Draw(rt, "strengths")
